@@ -1,0 +1,70 @@
+//go:build verif
+
+package gortsplib
+
+import (
+	"github.com/bluenviron/gortsplib/v5/pkg/mikey"
+)
+
+// This file is compiled only with the "verif" build tag. It exposes the
+// unexported SRTP context / MIKEY conversion to the external verification
+// harness; it adds no behaviour.
+
+// VerifSRTPContext is the library's SRTP context (key, MKI, SSRCs, roll-over counters).
+type VerifSRTPContext struct {
+	c *wrappedSRTPContext
+}
+
+// VerifNewSRTPContext creates a context the way clients, server streams and server sessions do.
+func VerifNewSRTPContext(key []byte, mki []byte, ssrcs []uint32, startROCs []uint32) (*VerifSRTPContext, error) {
+	c := &wrappedSRTPContext{
+		key:       key,
+		mki:       mki,
+		ssrcs:     ssrcs,
+		startROCs: startROCs,
+	}
+	err := c.initialize()
+	if err != nil {
+		return nil, err
+	}
+	return &VerifSRTPContext{c: c}, nil
+}
+
+// VerifSRTPContextFromMikey is mikeyToContext.
+func VerifSRTPContextFromMikey(msg *mikey.Message) (*VerifSRTPContext, error) {
+	c, err := mikeyToContext(msg)
+	if err != nil {
+		return nil, err
+	}
+	return &VerifSRTPContext{c: c}, nil
+}
+
+// ToMikey is contextToMikey.
+func (v *VerifSRTPContext) ToMikey() (*mikey.Message, error) {
+	return contextToMikey(v.c)
+}
+
+// EncryptRTP protects a marshaled RTP packet.
+func (v *VerifSRTPContext) EncryptRTP(plain []byte) ([]byte, error) {
+	return v.c.encryptRTP(nil, plain, nil)
+}
+
+// DecryptRTP unprotects a SRTP packet.
+func (v *VerifSRTPContext) DecryptRTP(encrypted []byte) ([]byte, error) {
+	return v.c.decryptRTP(nil, encrypted, nil)
+}
+
+// EncryptRTCP protects a marshaled RTCP packet.
+func (v *VerifSRTPContext) EncryptRTCP(plain []byte) ([]byte, error) {
+	return v.c.encryptRTCP(nil, plain, nil)
+}
+
+// DecryptRTCP unprotects a SRTCP packet.
+func (v *VerifSRTPContext) DecryptRTCP(encrypted []byte) ([]byte, error) {
+	return v.c.decryptRTCP(nil, encrypted, nil)
+}
+
+// ROC returns the roll-over counter that would be announced for ssrc.
+func (v *VerifSRTPContext) ROC(ssrc uint32) uint32 {
+	return v.c.roc(ssrc)
+}
